@@ -134,6 +134,7 @@ struct State {
     free_on_zero: bool,
     dead_counters: HashMap<usize, usize>,
     use_after_free: Vec<String>,
+    handovers: HashMap<usize, VC>,
 }
 
 #[derive(Clone, Debug)]
@@ -642,6 +643,32 @@ pub fn access(obj: ObjId, kind: Access, what: &str) {
     st.access(t, obj.0, kind, what);
 }
 
+/// Models an external hand-over (channel, lock, Arc) between harness tasks: `hb_send` publishes
+/// the calling task's clock under `key`, `hb_recv` makes everything published under `key` happen
+/// before the calling task's next step.
+pub fn hb_send(key: usize) {
+    let Some(sh) = active() else { return };
+    let t = task_or_main(&sh);
+    let mut st = lock(&sh);
+    st.tick(t);
+    let c = st.tasks[t].clock.clone();
+    match st.handovers.get_mut(&key) {
+        Some(old) => old.join(&c),
+        None => {
+            st.handovers.insert(key, c);
+        }
+    }
+}
+
+pub fn hb_recv(key: usize) {
+    let Some(sh) = active() else { return };
+    let t = task_or_main(&sh);
+    let mut st = lock(&sh);
+    if let Some(c) = st.handovers.get(&key).cloned() {
+        st.tasks[t].clock.join(&c);
+    }
+}
+
 /// An explicit scheduling point for harness code (e.g. between two endpoint operations).
 pub fn yield_point() {
     let Some(sh) = active() else { return };
@@ -829,6 +856,7 @@ where
             free_on_zero: cfg.free_on_refcount_zero,
             dead_counters: HashMap::new(),
             use_after_free: Vec::new(),
+            handovers: HashMap::new(),
         }),
         turn: AtomicUsize::new(usize::MAX),
         free_run: AtomicBool::new(false),
@@ -876,6 +904,7 @@ where
                 a.0 = n;
             }
         }
+        st.handovers.clear();
         for v in st.mutexes.values_mut() {
             let mut c = VC::new(n + 1);
             c.0[n] = v.get(0);
